@@ -844,6 +844,37 @@ func genC14(seed uint64, tier string) Scenario {
 		}
 		s.Clients = append(s.Clients, cs)
 	}
+	if s.Cancels && g.Pct(40) {
+		// a connection that is mid-frame when the context is cancelled: one complete
+		// call and the beginning of the next in a single write, then silence
+		cs := genLifeClient(g, s, &cid, true)
+		for len(cs.Frames) < 2 {
+			cid++
+			cs.Frames = append(cs.Frames, FrameSpec{Cid: cid, Text: callFrame("org.varlink.service.GetInfo", "", false, false, false, nil)})
+		}
+		cs.Cuts, cs.PauseUs = nil, nil
+		cs.StopAfter = len(cs.Frames[0].Text) + 1 + 1 + g.IntN(len(cs.Frames[1].Text)-1)
+		cs.End = "close"
+		s.Clients = append(s.Clients, cs)
+	}
+	if !s.Cancels && !second && g.Pct(12) {
+		// accounting across rounds: a Shutdown that finds a connection open, then a
+		// round with an idle timeout whose holder connection must keep it alive
+		s.Rounds = []RoundSpec{{UseBind: g.Pct(50)}, {UseBind: g.Pct(50), TimeoutNs: int64(1+g.IntN(20)) * 1e6}}
+		s.Ctl = [][]CtlOp{{{Wait: "accepted:1", Op: "shutdown"}}}
+		s.Clients = nil
+		first := genLifeClient(g, s, &cid, true)
+		first.Cuts, first.PauseUs = nil, nil
+		s.Clients = append(s.Clients, first)
+		to1 := int(s.Rounds[1].TimeoutNs / 1000)
+		h := genLifeClient(g, s, &cid, true)
+		h.Cuts, h.PauseUs = nil, nil
+		h.Wait, h.MustServe = "ev:serve.return:1,bound", true
+		l := genLifeClient(g, s, &cid, true)
+		l.Wait, l.MustServe = "ev:serve.return:1,bound", true
+		l.StartUs = 1 + to1 + g.IntN(3*to1+1)
+		s.Clients = append(s.Clients, h, l)
+	}
 	return s
 }
 
